@@ -128,7 +128,7 @@ func c13prop(r *simkit.Run) {
 		}
 	}
 
-	nops := rapid.IntRange(10, 150).Draw(rt, "ops")
+	nops := rapid.IntRange(10, deep(150, 600)).Draw(rt, "ops")
 	for i := 0; i < nops; i++ {
 		var free []int
 		for s := range st {
